@@ -28,3 +28,13 @@ Example parsers_use_model_separators :
   has "strings.Split" calls_ParseElementID && has "strconv.ParseInt" calls_ParseElementID &&
   has "strings.Split" calls_ParseFeatureID && has "strconv.ParseInt" calls_ParseFeatureID = true.
 Proof. vm_compute. reflexivity. Qed.
+
+(* the loops modelled by hand in Model.v (Counts, id lists): the calls the source makes now.
+   FeatureIDs.Counts switches on id.Type(), ElementIDs.Counts on the masked integer (no call);
+   the id lists append e.ElementID() / e.FeatureID() / o.ObjectID() of every item. *)
+Example loops_use_modelled_calls :
+  has "id.Type" calls_FeatureIDs_Counts && negb (has "id.Type" calls_ElementIDs_Counts) &&
+  has "e.ElementID" calls_Elements_ElementIDs && has "append" calls_Elements_ElementIDs &&
+  has "e.FeatureID" calls_Elements_FeatureIDs && has "append" calls_Elements_FeatureIDs &&
+  has "o.ObjectID" calls_Objects_ObjectIDs && has "append" calls_Objects_ObjectIDs = true.
+Proof. vm_compute. reflexivity. Qed.
